@@ -40,6 +40,9 @@ func c19Run(raw []byte) (*Line, error) {
 			adj[i][k] = v
 		}
 	}
+	if len(c.Roots) == 0 {
+		return nil, fmt.Errorf("no root: nothing would be observed")
+	}
 	for _, r := range c.Roots {
 		if r < 0 || r >= n {
 			return nil, fmt.Errorf("root out of range")
@@ -62,12 +65,31 @@ func c19Run(raw []byte) (*Line, error) {
 		}
 		return true
 	}
-	for _, root := range c.Roots {
-		work := make([][]int, n) // the graph handed to the library (a fresh copy per root)
-		for i := range adj {
-			work[i] = append([]int{}, adj[i]...)
+	// ONE graph object goes through the whole case: the BiGraph is built once and analysed from
+	// every root of the list in turn (the generators repeat the first root at the end), so that a
+	// call that damages the graph it was given (its In/Out lists are the graph's own storage)
+	// shows both in the snapshot comparison of that call and in the results of the later calls.
+	work := make([][]int, n) // the graph handed to the library
+	for i := range adj {
+		work[i] = append([]int{}, adj[i]...)
+	}
+	bg := graph.MakeBiGraph(graph.IntGraph(work))
+	ins0 := make([][]int, n) // the In lists as MakeBiGraph built them
+	for i := 0; i < n; i++ {
+		ins0[i] = append([]int{}, bg.In(i)...)
+	}
+	graphSame := func() bool {
+		if bg.NumNodes() != n {
+			return false
 		}
-		bg := graph.MakeBiGraph(graph.IntGraph(work))
+		for i := 0; i < n; i++ {
+			if !same(adj[i], work[i]) || !same(adj[i], bg.Out(i)) || !same(ins0[i], bg.In(i)) {
+				return false
+			}
+		}
+		return true
+	}
+	for _, root := range c.Roots {
 		l.I(root).B(c.Nil)
 		mutated := false
 		// IDom
@@ -80,6 +102,9 @@ func c19Run(raw []byte) (*Line, error) {
 		} else {
 			l.I(0).Is(idom)
 			idomSnap = append([]int{}, idom...)
+			if !graphSame() {
+				mutated = true
+			}
 		}
 		// Dom
 		if idom == nil {
@@ -106,7 +131,7 @@ func c19Run(raw []byte) (*Line, error) {
 					l.I(ids[k]).Is(ins[k]).Is(outs[k])
 				}
 			}
-			if !same(idom, idomSnap) {
+			if !same(idom, idomSnap) || !graphSame() {
 				mutated = true
 			}
 		}
@@ -130,10 +155,8 @@ func c19Run(raw []byte) (*Line, error) {
 		if idom != nil && !same(idom, idomSnap) {
 			mutated = true
 		}
-		for i := range adj {
-			if !same(adj[i], work[i]) {
-				mutated = true
-			}
+		if !graphSame() {
+			mutated = true
 		}
 		l.B(mutated)
 	}
@@ -154,6 +177,19 @@ func c19AllRoots(n int) []int {
 	r := make([]int, n)
 	for i := range r {
 		r[i] = i
+	}
+	return r
+}
+
+// every node as root, starting at node (k mod n); for every third k the first root once more at
+// the end (the graph object is analysed from it again after all the others)
+func c19RootsFrom(n int, k uint64) []int {
+	r := make([]int, 0, n+1)
+	for i := 0; i < n; i++ {
+		r = append(r, (i+int(k%uint64(n)))%n)
+	}
+	if k%3 == 0 {
+		r = append(r, r[0])
 	}
 	return r
 }
@@ -403,9 +439,14 @@ func c19Random(rng *rand.Rand, maxN int) c19Case {
 			}
 		}
 	}
+	// a history of roots on the one graph object: the main root, up to 4 others (any node,
+	// unreachable ones included), and in half of the cases the main root again at the end
 	roots := []int{root}
-	for k := rng.Intn(3); k > 0; k-- {
+	for k := rng.Intn(5); k > 0; k-- {
 		roots = append(roots, rng.Intn(len(g)))
+	}
+	if len(roots) > 1 && rng.Intn(2) == 0 {
+		roots = append(roots, root)
 	}
 	if rng.Intn(4) != 0 {
 		g, roots = c19Shuffle(rng, g, roots)
@@ -413,17 +454,46 @@ func c19Random(rng *rand.Rand, maxN int) c19Case {
 	return c19Case{G: g, Roots: roots, Nil: rng.Intn(2) == 0}
 }
 
+// c19Ladder: a two-way chain 1..m that the root 0 enters at both ends.  Every chain node is
+// dominated by the root only, but the reverse-post-order sweep of Cooper-Harvey-Kennedy moves
+// that fact one chain node per sweep: IDom needs m sweeps (measured: m = 3..39 -> m sweeps),
+// so a bound on the number of sweeps, or any shortcut that settles nodes early, shows here.
+// order bit 0: which end the root enters first; bit 1: adjacency order of the chain nodes.
+func c19Ladder(m, order int) [][]int {
+	g := c19Empty(m + 1)
+	if order&1 == 0 {
+		g[0] = []int{1, m}
+	} else {
+		g[0] = []int{m, 1}
+	}
+	for i := 1; i <= m; i++ {
+		var fw, bw []int
+		if i < m {
+			fw = []int{i + 1}
+		}
+		if i > 1 {
+			bw = []int{i - 1}
+		}
+		if order&2 == 0 {
+			g[i] = append(fw, bw...)
+		} else {
+			g[i] = append(bw, fw...)
+		}
+	}
+	return g
+}
+
 func c19Gen(tier string, rng *rand.Rand, emit func(interface{})) {
 	thorough := tier == "thorough"
 	// (a) exhaustive: every digraph (self-loops included) on 1..4 nodes, every root
 	for n := 1; n <= 4; n++ {
 		for code := uint64(0); code < 1<<uint(n*n); code++ {
-			emit(c19Case{G: c19FromCode(n, code), Roots: c19AllRoots(n), Nil: code%2 == 1})
+			emit(c19Case{G: c19FromCode(n, code), Roots: c19RootsFrom(n, code/2), Nil: code%2 == 1})
 		}
 	}
 	if thorough { // every loop-free digraph on 5 nodes, every root
 		for code := uint64(0); code < 1<<20; code++ {
-			emit(c19Case{G: c19FromCodeNoLoops(5, code), Roots: c19AllRoots(5), Nil: code%2 == 1})
+			emit(c19Case{G: c19FromCodeNoLoops(5, code), Roots: c19RootsFrom(5, code/2), Nil: code%2 == 1})
 		}
 	}
 	// (b) unreachable predecessors of reachable joins, systematically on 5 nodes:
@@ -445,7 +515,7 @@ func c19Gen(tier string, rng *rand.Rand, emit func(interface{})) {
 					g[4] = append(g[4], j)
 				}
 			}
-			emit(c19Case{G: g, Roots: []int{0, 1, 4}, Nil: mask%2 == 0})
+			emit(c19Case{G: g, Roots: [][]int{{0, 1, 4, 0}, {4, 0, 1}, {1, 4, 0, 4}}[mask%3], Nil: mask%2 == 0})
 		}
 	}
 	// (c) random graphs up to 40 nodes
@@ -455,6 +525,22 @@ func c19Gen(tier string, rng *rand.Rand, emit func(interface{})) {
 	}
 	for it := 0; it < nRand; it++ {
 		emit(c19Random(rng, 40))
+	}
+	// (e) ladders: graphs that need as many sweeps as they have nodes (2..39 chain nodes, i.e. up to
+	// the 40 nodes of the property; plus longer ones), plain and renumbered, second root inside the chain
+	for m := 2; m <= 39; m++ {
+		g := c19Ladder(m, m)
+		emit(c19Case{G: g, Roots: []int{0}, Nil: m%2 == 0})
+		h, rs := c19Shuffle(rng, c19Ladder(m, rng.Intn(4)), []int{0, 1 + rng.Intn(m)})
+		emit(c19Case{G: h, Roots: rs, Nil: m%2 == 1})
+	}
+	long := []int{60, 100}
+	if thorough {
+		long = []int{60, 100, 150, 250}
+	}
+	for _, m := range long {
+		h, rs := c19Shuffle(rng, c19Ladder(m, rng.Intn(4)), []int{0})
+		emit(c19Case{G: h, Roots: rs})
 	}
 	// (d) node ids across the 1024 boundary of the mark set: a small reachable region whose
 	// ids straddle 1023/1024 inside a graph of 1030 (thorough also 2050) nodes
